@@ -122,14 +122,14 @@ theorem annotations_rejects_duplicate (known : List String) (k : Token) (rest : 
   unfold annotations
   simp [opT, hk, hdup']
 
-theorem annotations_two_equal (k v1 v2 : String) (rest : List Token) (hv1 : replacementChar ∉ v1.toList) :
+theorem annotations_two_equal (k v1 v2 : String) (rest : List Token) :
     annotations [] (opT "@" :: idT k :: opT "(" :: strT v1 :: opT ")" :: opT "@" :: idT k :: opT "(" :: strT v2 :: opT ")" :: rest)
       = .error .dupAnnotation := by
   have h2 := annotations_rejects_duplicate [k] (idT k) (strT v2 :: opT ")" :: rest) rfl (by simp [idT])
   have e1 : ((strT v1).ty != TokType.string) = false := rfl
   have e2 : (idT k).text = k := rfl
   rw [annotations]
-  simp only [opT, bne_self_eq_false, Bool.false_eq_true, ↓reduceIte, List.contains_nil, e1, strVal_strT v1 hv1, e2]
+  simp only [opT, bne_self_eq_false, Bool.false_eq_true, ↓reduceIte, List.contains_nil, e1, strVal_strT v1, e2]
   simp only [opT, idT] at h2
   simp only [idT, h2]
   rfl
